@@ -323,7 +323,7 @@ func (g *Gen) valid(r *Req, name string) {
 			r.Expect = one("Expire " + SigExpire(k, o))
 		}
 	case "KEYS":
-		p := []string{"*", "k*", "k?", g.key(), "[a-z]*", "h?llo"}[g.d(6, "pat")]
+		p := []string{"*", "k*", "k?", g.key(), "[a-z]*", "h?llo", "user:\\", "\\", "", "[", strings.Repeat("*a", 24) + "*b"}[g.d(11, "pat")]
 		a = append(a, p)
 		r.Expect = one("Keys " + q(p))
 	case "TYPE", "TTL", "GET", "HGETALL", "LLEN", "SMEMBERS":
@@ -341,7 +341,7 @@ func (g *Gen) valid(r *Req, name string) {
 		for _, o := range g.perm2("scanopt") {
 			switch o {
 			case 0:
-				p := []string{"*", "k*", "k?", "a.c", "x+y", "h(llo", "a|b", "$k", "{a}", "^k"}[g.d(10, "pat")]
+				p := scanPatterns[g.d(len(scanPatterns), "pat")]
 				a = append(a, g.cs("MATCH"), p)
 				r.Pattern, r.HasPat = p, true
 			case 1:
@@ -813,26 +813,38 @@ func (g *Gen) spoil(r *Req) {
 	r.Quit = wasQuit
 }
 
+// scanPatterns: no probe holds a backslash or a bracket, so patterns with those select the same probes whether
+// they are taken literally (this framework) or as Redis escapes/classes.
+var scanPatterns = []string{"*", "k*", "k?", "a.c", "x+y", "h(llo", "a|b", "$k", "{a}", "^k", "user:\\", "\\", "k\\*", "*\\", "**", "*?*", "", "*k*k*", "[", "[a-", strings.Repeat("*a", 24) + "*b"}
+
 // ScanProbes are the keys a SCAN pattern is evaluated on (handler side and grammar side).
 var ScanProbes = []string{"", "k", "k1", "kk", "abc", "a.c", "x+y", "xxy", "xy", "h(llo", "a|b", "a", "b", "$k", "{a}", "^k", "hello", "k\nx"}
 
-// globMatch is a direct recursive Redis-glob matcher for patterns made of '*', '?' and literals.
+// globMatch is a direct matcher for patterns made of '*', '?' and literals (everything else is literal).
+// It is the classic two-pointer algorithm with one backtrack point, O(len(p)*len(s)) on any input.
 func globMatch(p, s string) bool {
-	if p == "" {
-		return s == ""
-	}
-	switch p[0] {
-	case '*':
-		for i := 0; i <= len(s); i++ {
-			if globMatch(p[1:], s[i:]) {
-				return true
-			}
+	pi, si := 0, 0
+	star, mark := -1, 0
+	for si < len(s) {
+		switch {
+		case pi < len(p) && p[pi] == '*':
+			star, mark = pi, si
+			pi++
+		case pi < len(p) && (p[pi] == '?' || p[pi] == s[si]):
+			pi++
+			si++
+		case star >= 0:
+			mark++
+			si = mark
+			pi = star + 1
+		default:
+			return false
 		}
-		return false
-	case '?':
-		return s != "" && globMatch(p[1:], s[1:])
 	}
-	return s != "" && s[0] == p[0] && globMatch(p[1:], s[1:])
+	for pi < len(p) && p[pi] == '*' {
+		pi++
+	}
+	return pi == len(p)
 }
 
 // GlobBits renders which probes a glob pattern selects.
